@@ -14,9 +14,17 @@ func init() {
 
 func ruleCACHE1(p *Prog) *RuleResult {
 	res := newResult("CACHE1", ruleDoc["CACHE1"], 10)
+	own := p.OWN()
 	fns := append([]*ssa.Function(nil), p.sourceFns()...)
 	sort.Slice(fns, func(i, j int) bool { return fname(fns[i]) < fname(fns[j]) })
 	loadAt := func(v ssa.Value) (base ssa.Value, idx ssa.Value, ok bool) {
+		// a positional accessor of a table counts as an element load: t.getKeyAtIndex(i)
+		if c, isC := v.(*ssa.Call); isC {
+			if g := c.Call.StaticCallee(); g != nil && g.Signature.Recv() != nil && len(c.Call.Args) == 2 && isPositionalAccessor(g) {
+				return c.Call.Args[0], c.Call.Args[1], true
+			}
+			return nil, nil, false
+		}
 		u, isU := v.(*ssa.UnOp)
 		if !isU || u.Op != token.MUL {
 			return nil, nil, false
@@ -54,7 +62,9 @@ func ruleCACHE1(p *Prog) *RuleResult {
 					var base ssa.Value
 					for k := range vphi.Edges {
 						if b, idx, ok := loadAt(vphi.Edges[k]); ok && idx == pphi.Edges[k] {
-							base = b
+							if _, isConst := idx.(*ssa.Const); !isConst {
+								base = b
+							}
 						}
 					}
 					if base == nil {
@@ -86,6 +96,9 @@ func ruleCACHE1(p *Prog) *RuleResult {
 							}
 							return
 						}
+						if _, isConst := v.(*ssa.Const); isConst {
+							return // the zero value the local was declared with
+						}
 						if _, _, ok := loadAt(v); !ok {
 							pure = false
 						}
@@ -97,13 +110,29 @@ func ruleCACHE1(p *Prog) *RuleResult {
 					n++
 					cn := fmt.Sprintf("%s|%s beside cursor %s#%d", fname(f), vphi.Comment, pphi.Comment, n)
 					var where string
+					otherRelation := false
 					var coherent func(v, pos ssa.Value, seen map[[2]ssa.Value]bool) bool
 					coherent = func(v, pos ssa.Value, seen map[[2]ssa.Value]bool) bool {
 						if v == ssa.Value(vphi) && pos == ssa.Value(pphi) {
 							return true
 						}
-						if b, idx, ok := loadAt(v); ok && idx == pos && sameAccessPath(b, base, 0) {
+						if b, idx, ok := loadAt(v); ok && sameIndex(idx, pos) && sameAccessPath(b, base, 0) {
 							return true
+						}
+						// the table was shifted under the cursor: an insertion at the cursor followed by pos++
+						// leaves the same element under it
+						if bo, ok := pos.(*ssa.BinOp); ok && bo.Op == token.ADD {
+							if c, isC := constIntVal(bo.Y); isC && c == 1 {
+								for _, in2 := range bo.Block().Instrs {
+									if call, ok := in2.(*ssa.Call); ok {
+										if g := call.Call.StaticCallee(); g != nil && len(call.Call.Args) > 0 && sameAccessPath(call.Call.Args[0], base, 0) && !isPositionalAccessor(g) {
+											if sm := own.Sum(g); sm != nil && sm.mut[0] != nil {
+												return coherent(v, bo.X, seen)
+											}
+										}
+									}
+								}
+							}
 						}
 						k := [2]ssa.Value{v, pos}
 						if seen[k] {
@@ -145,15 +174,21 @@ func ruleCACHE1(p *Prog) *RuleResult {
 						return false
 					}
 					bad := false
+					// the local loaded, on some edge of the header itself, from another place than the cursor's position:
+					// some other relation (the previous element, an element of a second slice), not a cache
 					for k := range vphi.Edges {
-						if !loop[h.Preds[k]] {
-							continue // entry edges: the initial load is the caller's business (seeded above or not)
+						if b, idx, isLoad := loadAt(vphi.Edges[k]); isLoad && !(sameIndex(idx, pphi.Edges[k]) && sameAccessPath(b, base, 0)) {
+							otherRelation = true
 						}
+					}
+					for k := range vphi.Edges {
 						if !coherent(vphi.Edges[k], pphi.Edges[k], map[[2]ssa.Value]bool{}) {
 							bad = true
 						}
 					}
-					if bad {
+					if otherRelation {
+						res.ok(cn, p.ipos(vphi), "the local is also loaded from another place than the cursor's position: not a cache of the cursor")
+					} else if bad {
 						res.bad(cn, p.ipos(vphi), fmt.Sprintf("on some way round the loop the cursor %s takes a new value (%s) while %s is not reloaded from the slice at that position (or the reverse)", pphi.Comment, where, vphi.Comment))
 					} else {
 						res.ok(cn, p.ipos(vphi), "reloaded at the cursor's new position on every way round the loop")
@@ -163,4 +198,36 @@ func ruleCACHE1(p *Prog) *RuleResult {
 		}
 	}
 	return res
+}
+
+func sameIndex(a, b ssa.Value) bool {
+	if a == b {
+		return true
+	}
+	ca, ok1 := constIntVal(a)
+	cb, ok2 := constIntVal(b)
+	return ok1 && ok2 && ca == cb
+}
+
+// isPositionalAccessor: a method (receiver, int) -> element whose body returns the receiver's slice field
+// indexed by the parameter
+func isPositionalAccessor(g *ssa.Function) bool {
+	if g.Blocks == nil || len(g.Params) != 2 || g.Signature.Results().Len() != 1 {
+		return false
+	}
+	for _, b := range g.Blocks {
+		r, ok := b.Instrs[len(b.Instrs)-1].(*ssa.Return)
+		if !ok {
+			continue
+		}
+		u, ok := r.Results[0].(*ssa.UnOp)
+		if !ok || u.Op != token.MUL {
+			return false
+		}
+		ia, ok := u.X.(*ssa.IndexAddr)
+		if !ok || ia.Index != ssa.Value(g.Params[1]) {
+			return false
+		}
+	}
+	return true
 }
